@@ -38,7 +38,7 @@ func (c Call) String() string {
 	switch c.K {
 	case "add", "remove", "has":
 		return fmt.Sprintf("%s.%s(%d)", n[c.Recv], c.K, c.V)
-	case "fromslice", "fromkeys", "fromvalues":
+	case "fromslice", "fromkeys", "fromvalues", "stringfmt":
 		return fmt.Sprintf("%s(%v)", c.K, c.Vals)
 	case "clone", "len":
 		return fmt.Sprintf("%s.%s", n[c.Recv], c.K)
@@ -120,7 +120,7 @@ func genBuild(r *simrt.Rand, u int) []BOp {
 	return out
 }
 
-var callKinds = []string{"rangestop", "rangestop", "union", "intersect", "setdiff", "symdiff", "union", "intersect", "setdiff", "symdiff", "addset", "removeset", "add", "remove", "has", "clone", "cartesian", "fromslice", "fromkeys", "fromvalues", "len"}
+var callKinds = []string{"stringfmt", "rangestop", "rangestop", "union", "intersect", "setdiff", "symdiff", "union", "intersect", "setdiff", "symdiff", "addset", "removeset", "add", "remove", "has", "clone", "cartesian", "fromslice", "fromkeys", "fromvalues", "len"}
 
 // Generate implements core.Harness.
 func (H) Generate(r *simrt.Rand, tier string) any {
@@ -140,7 +140,7 @@ func (H) Generate(r *simrt.Rand, tier string) any {
 		if (c.K == "addset" || c.K == "removeset") && c.Arg == c.Recv {
 			c.Arg = 1 - c.Recv // a set mutating itself while ranging over itself is documented misuse
 		}
-		if strings.HasPrefix(c.K, "from") {
+		if strings.HasPrefix(c.K, "from") || c.K == "stringfmt" {
 			for j := 0; j < r.Intn(8); j++ {
 				c.Vals = append(c.Vals, r.Intn(s.U))
 			}
@@ -184,6 +184,67 @@ func (H) Shrink(sc any) []any {
 		}
 	}
 	return out
+}
+
+var palette = []string{"[x]", "a]", "[b", "{c}", "plain", "]", "[[d]]", "e"}
+
+// stringFormats builds sets of awkward strings and of arrays in both
+// implementations and compares String() with every ordering of the members'
+// own fmt.Sprint text.
+func stringFormats(vals []int) string {
+	seen := map[int]bool{}
+	var strs []string
+	var arrs [][2]int
+	for _, v := range vals {
+		if seen[v] || len(strs) >= 4 {
+			continue
+		}
+		seen[v] = true
+		strs = append(strs, palette[v%len(palette)])
+		arrs = append(arrs, [2]int{v, v + 1})
+	}
+	check := func(got string, members []string) string {
+		var perm func(rest []string, acc []string) bool
+		perm = func(rest, acc []string) bool {
+			if len(rest) == 0 {
+				return got == "{"+strings.Join(acc, " ")+"}"
+			}
+			for i := range rest {
+				nr := append(append([]string(nil), rest[:i]...), rest[i+1:]...)
+				if perm(nr, append(acc, rest[i])) {
+					return true
+				}
+			}
+			return false
+		}
+		if !perm(members, nil) {
+			return fmt.Sprintf("string: String()=%q is not {members separated by spaces} for members %q", got, members)
+		}
+		return ""
+	}
+	dedup := map[string]bool{}
+	var ms []string
+	for _, x := range strs {
+		if !dedup[x] {
+			dedup[x] = true
+			ms = append(ms, x)
+		}
+	}
+	var as []string
+	for _, a := range arrs {
+		as = append(as, fmt.Sprint(a))
+	}
+	for _, got := range []string{maps.NewSetFromSlice(strs).String(), sync2.NewSetFromSlice(strs).String()} {
+		if d := check(got, ms); d != "" {
+			return d
+		}
+	}
+	for _, got := range []string{maps.NewSetFromSlice(arrs).String(), sync2.NewSetFromSlice(arrs).String()} {
+		if d := check(got, as); d != "" {
+			return d
+		}
+	}
+	return ""
 }
 
 func newSet(impl string) sets.Set[int] {
@@ -435,6 +496,13 @@ func (H) Execute(scAny any, cfg simrt.Config, st *core.Stats) (*simrt.Outcome, *
 				}
 			case "clone":
 				if !checkResult(where, a.Clone(), ma.clone()) {
+					return
+				}
+			case "stringfmt":
+				// members whose own text contains brackets and braces, and array
+				// members: String must print exactly the members, in some order
+				if d := stringFormats(c.Vals); d != "" {
+					fail(where, d)
 					return
 				}
 			case "cartesian":
